@@ -80,3 +80,17 @@ PROPS["C15"] = dict(
     outside="more than 2 names, longer histories, MiMC as transcript hash (block-length errors)",
     assumptions=["hash = uninterpreted streaming function"],
 )
+
+PROPS["C16"] = dict(
+    jobs=[Job("field/koalabear/vortex", ["C16/vortex_merkle.go.tmpl"]),
+          Job("accumulator/merkletree", ["common/vhash.go.tmpl", "C16/acc_stubs.go.tmpl", "C16/acc_merkle.go.tmpl"])],
+    level_text="Bounded proof for both Merkle trees: root = recursive tree hash, honest proofs verify, and with the hash an "
+               "injective uninterpreted function every single-component tampering (symbolic index, leaf, root, each sibling, "
+               "shortened / extended proof) is rejected; cached sub-trees give the same root.",
+    level_note="Hash functions (Poseidon2 compression; leafSum/nodeSum of the accumulator) are injective uninterpreted functions "
+               "with disjoint leaf/node ranges (collision resistance). koalabear.Element by canonical value.",
+    bounds="vortex: n in {1,2,3,4,5,8} honest, tampering n in {3,4,8}; accumulator: every (n,i) with n<=9 honest, tampering "
+           "for (n,i) in {(2,0),(3,2),(5,1),(5,4),(6,5),(7,6)}, symbolic index < 128, 2-byte leaves; PushSubTree n=8",
+    outside="n beyond the bounds; ReadAll segment readers; real-hash collisions",
+    assumptions=["hash injective on the finitely many inputs of a harness", "leaf data (2 bytes) and node input (64 bytes) hash to different digests"],
+)
